@@ -102,3 +102,24 @@ Theorem C01_end_to_end_ordered_partial :
   exists p, Permutation p inp /\ sorted_by keys p = true /\ got = slice_rows off lim p.
 Proof. exact end_to_end_ordered_b. Qed.
 Print Assumptions C01_end_to_end_ordered_partial.
+
+(* the same, through the judge (complete for ordered answers when every key column holds one kind of value) *)
+Theorem C01_end_to_end_ordered_judge_partial :
+  forall deal batching perm_b perm_l hash kbits Pn hasha pout capacity chunk tree_of lsched usched,
+  oracle_ok deal batching perm_b perm_l hash Pn pout chunk tree_of lsched ->
+  forall ty sch d q' keys lim off pth got inp inp',
+  db_arity_ok sch d = true -> joins_wf sch q' = true -> no_limit (plan_of q') = true ->
+  eval_query d [] q' = Ok inp -> eval_lplan d [] (plan_of q') = Ok inp' ->
+  Forall (row_typed ty keys) inp ->
+  exec_pplan deal batching perm_b perm_l hash kbits Pn hasha pout capacity chunk tree_of lsched usched pth d []
+             (phys_of (plan_of (QOrderLimit q' keys lim off))) = Ok got ->
+  check_answer d (QOrderLimit q' keys lim off) got = VOk.
+Proof. exact end_to_end_ordered_judge. Qed.
+Print Assumptions C01_end_to_end_ordered_judge_partial.
+
+(* the judge accepts every exact slice of every correctly sorted arrangement (converse of C01_check_answer_sound_ordered) *)
+Theorem C01_order_check_complete : forall keys ty lim off inp p,
+  Forall (row_typed ty keys) inp -> Permutation p inp -> sorted_by keys p = true ->
+  order_check keys lim off inp (slice_rows off lim p) = true.
+Proof. exact order_check_complete. Qed.
+Print Assumptions C01_order_check_complete.
